@@ -1,0 +1,144 @@
+//! Verification hooks (only compiled with the `verif_hooks` cargo feature).
+//!
+//! Exposes the crate-private [`crate::circuit::CircuitBuilder`] so that sequences of gate
+//! requests can be driven directly, without going through the language front end.
+
+use std::collections::HashMap;
+
+use crate::{
+    circuit::{Circuit, CircuitBuilder, CircuitBuilderOptions, GateIndex, PanicReason},
+    token::MetaInfo,
+};
+
+/// A plain-data copy of the internal structure of a builder.
+#[derive(Debug, Clone, PartialEq, Eq, Hash)]
+pub struct Snapshot {
+    /// Index of the first non-input, non-constant wire.
+    pub shift: usize,
+    /// The gates pushed so far: (is_and, x, y).
+    pub gates: Vec<(bool, GateIndex, GateIndex)>,
+    /// The sorted pairs of wires recorded as negations of each other.
+    pub negated: Vec<(GateIndex, GateIndex)>,
+}
+
+/// Public wrapper around the crate-private circuit builder.
+#[derive(Debug, Clone)]
+pub struct Builder(CircuitBuilder);
+
+#[allow(missing_docs)]
+impl Builder {
+    pub fn new(input_gates: Vec<usize>, cache_gates: bool) -> Self {
+        Self(CircuitBuilder::new(
+            input_gates,
+            HashMap::new(),
+            CircuitBuilderOptions { cache_gates },
+        ))
+    }
+    pub fn snapshot(&self) -> Snapshot {
+        self.0.verif_snapshot()
+    }
+    pub fn push_xor(&mut self, x: GateIndex, y: GateIndex) -> GateIndex {
+        self.0.push_xor(x, y)
+    }
+    pub fn push_and(&mut self, x: GateIndex, y: GateIndex) -> GateIndex {
+        self.0.push_and(x, y)
+    }
+    pub fn push_not(&mut self, x: GateIndex) -> GateIndex {
+        self.0.push_not(x)
+    }
+    pub fn push_or(&mut self, x: GateIndex, y: GateIndex) -> GateIndex {
+        self.0.push_or(x, y)
+    }
+    pub fn push_eq(&mut self, x: GateIndex, y: GateIndex) -> GateIndex {
+        self.0.push_eq(x, y)
+    }
+    pub fn push_mux(&mut self, s: GateIndex, x0: GateIndex, x1: GateIndex) -> GateIndex {
+        self.0.push_mux(s, x0, x1)
+    }
+    pub fn push_adder(
+        &mut self,
+        x: GateIndex,
+        y: GateIndex,
+        carry: GateIndex,
+    ) -> (GateIndex, GateIndex) {
+        self.0.push_adder(x, y, carry)
+    }
+    pub fn push_addition_circuit(
+        &mut self,
+        x: &[GateIndex],
+        y: &[GateIndex],
+    ) -> (Vec<GateIndex>, GateIndex, GateIndex) {
+        self.0.push_addition_circuit(x, y)
+    }
+    pub fn push_negation_circuit(&mut self, x: &[GateIndex]) -> Vec<GateIndex> {
+        self.0.push_negation_circuit(x)
+    }
+    pub fn push_subtraction_circuit(
+        &mut self,
+        x: &[GateIndex],
+        y: &[GateIndex],
+        is_signed: bool,
+    ) -> (Vec<GateIndex>, GateIndex) {
+        self.0.push_subtraction_circuit(x, y, is_signed)
+    }
+    pub fn push_unsigned_division_circuit(
+        &mut self,
+        x: &[GateIndex],
+        y: &[GateIndex],
+    ) -> (Vec<GateIndex>, Vec<GateIndex>) {
+        self.0.push_unsigned_division_circuit(x, y)
+    }
+    pub fn push_comparator_circuit(
+        &mut self,
+        bits: usize,
+        x: &[GateIndex],
+        is_x_signed: bool,
+        y: &[GateIndex],
+        is_y_signed: bool,
+    ) -> (GateIndex, GateIndex) {
+        self.0
+            .push_comparator_circuit(bits, x, is_x_signed, y, is_y_signed)
+    }
+    pub fn push_gt_circuit(&mut self, bits: usize, x: &[GateIndex], y: &[GateIndex]) -> GateIndex {
+        self.0.push_gt_circuit(bits, x, y)
+    }
+    pub fn push_condswap(
+        &mut self,
+        s: GateIndex,
+        x: GateIndex,
+        y: GateIndex,
+    ) -> (GateIndex, GateIndex) {
+        self.0.push_condswap(s, x, y)
+    }
+    pub fn push_sorter(
+        &mut self,
+        bits: usize,
+        x: &[GateIndex],
+        y: &[GateIndex],
+    ) -> (Vec<GateIndex>, Vec<GateIndex>) {
+        self.0.push_sorter(bits, x, y)
+    }
+    pub fn push_bitonic_merger(
+        &mut self,
+        bits: usize,
+        ascending: bool,
+        bitonic: &mut [Vec<GateIndex>],
+    ) {
+        self.0.push_bitonic_merger(bits, ascending, bitonic)
+    }
+    pub fn push_bitonic_sorter(&mut self, bits: usize, input: &mut [Vec<GateIndex>]) {
+        self.0.push_bitonic_sorter(bits, input)
+    }
+    /// `reason`: 1 = overflow, 2 = division by zero, 3 = out of bounds.
+    pub fn push_panic_if(&mut self, cond: GateIndex, reason: u8, meta: MetaInfo) {
+        let reason = match reason {
+            1 => PanicReason::Overflow,
+            2 => PanicReason::DivByZero,
+            _ => PanicReason::OutOfBounds,
+        };
+        self.0.push_panic_if(cond, reason, meta)
+    }
+    pub fn build(self, output_gates: Vec<GateIndex>) -> Circuit {
+        self.0.build(output_gates)
+    }
+}
